@@ -32,3 +32,190 @@ let () =
          (match s.st with StS -> "S" | StH -> "H" | StT -> "T") ^
          (if s.cin = [] && s.sin = [] then "" else ":pending"))
     | _ -> "?args")
+
+(* relay_trace <tmux 0/1> <client chunks> <server chunks> <events> : trace validation.  Replays
+   a trace recorded by the overlay build of the real relay (go/cmd/overlay/vl.go: one token
+   <role><code>[:value…]@<point> per synchronisation operation executed) with the extracted
+   Relay.rv_run: every event must be an enabled step of step_fn from the current model state
+   with the observed value.  Prints "ok:<slog>:<clog>:<blog>" (compared with the bytes the
+   real writers received) or "bad:<index>:<event>:<model state>" for the first offending event. *)
+let c13_role = function 'I' -> Some RvIn | 'O' -> Some RvOut | 'H' -> Some RvHs | _ -> None
+let c13_ev (t : string) : rv_ev option =
+  let body = match String.index_opt t '@' with Some i -> String.sub t 0 i | None -> t in
+  if String.length body < 2 then None else
+  match c13_role body.[0] with
+  | None -> None
+  | Some r ->
+    let n s = n_of_int (int_of_string s) in
+    let buf = function "I" -> Some RvBufI | "O" -> Some RvBufO | _ -> None in
+    (try
+      match r, String.split_on_char ':' (String.sub body 1 (String.length body - 1)) with
+      | (RvIn | RvOut), ["R"; c] -> Some (RvRead (r, bytes_of_hex c))
+      | (RvIn | RvOut), ["L"; x] -> Some (RvLoad (r, n x))
+      | _, ["K"; b] -> Some (RvLock (r, bool_of b))
+      | (RvIn | RvOut), ["V"; x] -> Some (RvReload (r, n x))
+      | RvIn, ["A"; "I"; c] | RvOut, ["A"; "O"; c] -> Some (RvAdd (r, bytes_of_hex c))
+      | _, ["U"] -> Some (RvUnlock r)
+      | _, ["S"; ch; b; cf] ->
+        (match ch with
+         | "srv" -> Some (RvSend (r, RvSrv, bytes_of_hex b, bool_of cf))
+         | "cli" -> Some (RvSend (r, RvCli, bytes_of_hex b, bool_of cf))
+         | "byp" -> Some (RvSend (r, RvByp, bytes_of_hex b, bool_of cf))
+         | _ -> None)
+      | _, ["C"; o; ok] -> Some (RvCas (r, n o, bool_of ok))
+      | (RvOut | RvHs), ["T"; x] -> Some (RvStore (r, n x))
+      | RvOut, ["D"; c; b] -> Some (RvDetect (bytes_of_hex c, bool_of b))
+      | RvOut, ["G"] -> Some RvGo
+      | RvHs, ["E"; s; k] -> (match buf s with Some b -> Some (RvEat (b, nat_of_int (int_of_string k))) | None -> None)
+      | RvHs, ["Q"; s; ok] -> (match buf s with Some b -> Some (RvRes (b, bool_of ok)) | None -> None)
+      | RvHs, ["P"; s; "nil"] -> (match buf s with Some b -> Some (RvPop (b, None)) | None -> None)
+      | RvHs, ["P"; s; c] -> (match buf s with Some b -> Some (RvPop (b, Some (bytes_of_hex c))) | None -> None)
+      | _, ["X"; v] -> Some (RvScope (v <> "0"))
+      | _ -> None
+    with _ -> None)
+
+let c13_state_descr s : string =
+  let st = match s.st with StS -> "S" | StH -> "H" | StT -> "T" in
+  let lk = match s.lk with Free -> "free" | ByIn -> "In" | ByOut -> "Out" | ByHs -> "Hs" | ByTl -> "Tl" in
+  let ipc = match s.ipc with I0 -> "I0" | I1 _ -> "I1" | I3 _ -> "I3" | I4 _ -> "I4" | I4a _ -> "I4a" | I4p -> "I4p"
+                           | I4u _ -> "I4u" | I5 _ -> "I5" | I6 _ -> "I6" in
+  let opc = match s.opc with O0 -> "O0" | O1 _ -> "O1" | O3 _ -> "O3" | O4 _ -> "O4" | O4a _ -> "O4a" | O4p -> "O4p"
+                           | O4u _ -> "O4u" | O5 (_, t) -> if t then "O5t" else "O5" | O5h _ -> "O5h" | O5g _ -> "O5g"
+                           | O5s _ -> "O5s" | O6 -> "O6" in
+  let hpc = match s.hpc with HN -> "HN" | H0 -> "H0" | H2 -> "H2" | H3 -> "H3" | H4 -> "H4" | HF1 -> "HF1" | HF2 -> "HF2"
+                           | HL _ -> "HL" | HP1 _ -> "HP1" | HS1 _ -> "HS1" | HP2 _ -> "HP2" | HS2 _ -> "HS2" | HD _ -> "HD" in
+  Printf.sprintf "status=%s,lock=%s,in=%s,out=%s,hs=%s,parkedI=%d,parkedO=%d" st lk ipc opc hpc
+    (List.length (flat s.ibr s.ibq)) (List.length (flat s.obr s.obq))
+
+let () =
+  register "relay_trace" (function [tm; cs; ss; tr] ->
+      let toks = split_on ' ' tr in
+      (* parse up to the first token that is no event of the model *)
+      let rec parse acc = function
+        | [] -> (List.rev acc, None)
+        | t :: r -> (match c13_ev t with Some e -> parse (e :: acc) r | None -> (List.rev acc, Some t)) in
+      let (evs, unknown) = parse [] toks in
+      let nth i = try List.nth toks i with _ -> "?" in
+      (match rv_run (bool_of tm) evs O (init (chunks_of cs) (chunks_of ss)) with
+       | RvBad (i, s) -> Printf.sprintf "bad:%d:%s:%s" (int_of_nat i) (nth (int_of_nat i)) (c13_state_descr s)
+       | RvOk s ->
+         (match unknown with
+          | Some t -> Printf.sprintf "bad:%d:%s:no-event-of-the-model:%s" (List.length evs) t (c13_state_descr s)
+          | None -> "ok:" ^ hex_of_bytes s.slog ^ ":" ^ hex_of_bytes s.clog ^ ":" ^ hex_of_bytes s.blog))
+    | _ -> "?args")
+
+(* ---- the reset guard: schedule search on the model ------------------------------------------
+   relay_search <ug> <tmux> <client chunks> <server chunks> <turns> : the chunks are over the
+   abstract alphabet of Relay.rg_next, <turns> is a canonical (causal) schedule at the level of
+   loop iterations: I / O = the input / output reader takes its next chunk and runs until it
+   is back at the head of its loop (or blocked), H = the worker runs until it is blocked or
+   done, T = the deferred unlock.  The search examines every schedule obtained by cutting ONE
+   turn after k >= 1 steps and resuming that thread after a later turn (before its own next
+   turn), i.e. every way of delaying one thread in front of one of its operations, and looks
+   for a state with conservation broken or bytes parked outside a handshake (Relay.rg_bad).
+   <ug> = 0 guarded reset, 1 reset from any state, gen = what the current source has
+   (Relay.rg_current, from the regenerated skeleton).
+   relay_search prints "none" or "bad:<number of bad schedules>:<first witness>";
+   relay_search_list prints "examined=<n>;bad=<m>" followed by up to <max> witnesses
+   "|<i>.<k>.<j>;<kind>;<labels up to the end of the resumed turn>" (one per cut point). *)
+let c13_rd_str = function RdMore -> "m" | RdOk -> "o" | RdErr -> "e"
+let c13_label_str (l : label) : string =
+  let b x = if x then "1" else "0" in
+  match l with
+  | LInRead -> "IR" | LInLoad -> "IL" | LInLock -> "IK" | LInReload -> "IV" | LInAdd -> "IA"
+  | LInUnlockP -> "IP" | LInUnlockU -> "IU" | LInSend -> "IS" | LInEnd c -> "IE:" ^ b c
+  | LOutRead -> "OR" | LOutLoad -> "OL" | LOutLock -> "OK" | LOutReload -> "OV" | LOutAdd -> "OA"
+  | LOutUnlockP -> "OP" | LOutUnlockU -> "OU" | LOutBypass -> "OB"
+  | LOutDetect (c, t) -> "OD:" ^ hex_of_bytes c ^ ":" ^ b t
+  | LOutStoreH -> "OH" | LOutGo -> "OG" | LOutSend -> "OS" | LOutEnd c -> "OE:" ^ b c
+  | LHsAct (n, r) -> "HA:" ^ string_of_int (int_of_nat n) ^ ":" ^ c13_rd_str r
+  | LHsSendAct (l, c) -> "HSA:" ^ hex_of_bytes l ^ ":" ^ b c
+  | LHsCfg (n, r) -> "HC:" ^ string_of_int (int_of_nat n) ^ ":" ^ c13_rd_str r
+  | LHsSendCfg l -> "HSC:" ^ hex_of_bytes l
+  | LHsFail1 l -> "HF1:" ^ hex_of_bytes l | LHsFail2 l -> "HF2:" ^ hex_of_bytes l
+  | LHsLock -> "HK" | LHsPopI -> "HPI" | LHsSendI -> "HSI" | LHsPopO -> "HPO" | LHsSendO -> "HSO"
+  | LHsDone -> "HD" | LTlUnlock -> "TU"
+
+let c13_thread = function 'I' -> RgIn | 'O' -> RgOut | 'H' -> RgHs | 'T' -> RgTl | _ -> failwith "thread"
+
+type c13_exec = { mutable ms : rg_mem * state; mutable labs : label list; mutable nsteps : int;
+                  mutable bad : (int * string) option }
+
+let c13_search ug tm cs ss (turns : string) =
+  let ci = List.concat cs and si = List.concat ss in
+  let n = String.length turns in
+  let fresh () = { ms = (rg_mem0, init cs ss); labs = []; nsteps = 0; bad = None } in
+  (* run thread th for at most limit steps or until it is back at its loop head / not enabled;
+     returns the number of steps taken *)
+  let turn (e : c13_exec) th limit =
+    let k = ref 0 and go = ref true in
+    while !go && !k < limit do
+      (match rg_move ug tm th e.ms with
+       | None -> go := false
+       | Some (l, ms') ->
+         e.ms <- ms'; e.labs <- l :: e.labs; e.nsteps <- e.nsteps + 1; incr k;
+         if e.bad = None && rg_bad ci si (snd ms') then
+           e.bad <- Some (e.nsteps, if rg_stranded (snd ms') then "stranded" else "conservation");
+         if rg_at_head th (snd ms') then go := false)
+    done; !k in
+  (* canonical run: the length of every turn *)
+  let canon = fresh () in
+  let lens = Array.init n (fun t -> turn canon (c13_thread turns.[t]) 1000) in
+  let examined = ref 0 and found = ref [] and nbad = ref 0 in
+  if canon.bad <> None then begin incr nbad; found := ["-1.0.0;canonical;" ^ String.concat " " (List.rev_map c13_label_str canon.labs)] end;
+  for i = 0 to n - 1 do
+    let x = turns.[i] in
+    for k = 1 to lens.(i) - 1 do
+      let first = ref true in
+      let j = ref (i + 1) in
+      while !j < n && turns.[!j] <> x do
+        incr examined;
+        let e = fresh () in
+        let cut = ref 0 in
+        for t = 0 to n - 1 do
+          if t = i then ignore (turn e (c13_thread x) k) else ignore (turn e (c13_thread turns.[t]) 1000);
+          if t = !j then begin ignore (turn e (c13_thread x) 1000); cut := e.nsteps end
+        done;
+        (match e.bad with
+         | Some (at, kind) ->
+           incr nbad;
+           if !first then begin
+             first := false;
+             let labs = List.rev e.labs in
+             let upto = (ignore at; !cut) in
+             let pre = List.filteri (fun idx _ -> idx < upto) labs in
+             found := (Printf.sprintf "%d.%d.%d;%s;%s" i k !j kind (String.concat " " (List.map c13_label_str pre))) :: !found
+           end
+         | None -> ());
+        incr j
+      done
+    done
+  done;
+  (!examined, !nbad, List.rev !found, List.rev_map c13_label_str canon.labs)
+
+let c13_ug = function "0" -> false | "1" -> true | "gen" -> rg_current | _ -> failwith "ug"
+
+let () =
+  register "relay_search" (function [ug; tm; cs; ss; turns] ->
+      let (_, nbad, found, _) = c13_search (c13_ug ug) (bool_of tm) (chunks_of cs) (chunks_of ss) turns in
+      (match found with [] -> "none" | w :: _ -> Printf.sprintf "bad:%d:%s" nbad w)
+    | _ -> "?args");
+  register "relay_search_list" (function [ug; tm; cs; ss; turns; mx] ->
+      let (ex, nbad, found, _) = c13_search (c13_ug ug) (bool_of tm) (chunks_of cs) (chunks_of ss) turns in
+      let rec take k = function [] -> [] | x :: r -> if k = 0 then [] else x :: take (k - 1) r in
+      String.concat "|" (Printf.sprintf "examined=%d;bad=%d" ex nbad :: take (int_of_string mx) found)
+    | _ -> "?args");
+  (* relay_canon: the label sequence of the canonical schedule itself *)
+  register "relay_canon" (function [ug; tm; cs; ss; turns] ->
+      let (_, _, _, canon) = c13_search (c13_ug ug) (bool_of tm) (chunks_of cs) (chunks_of ss) turns in
+      String.concat " " canon
+    | _ -> "?args");
+  (* relay_guard_run <ug> <tmux> <client chunks> <server chunks> <labels>: a label sequence on
+     rg_run; prints "none" (not a path), "ok" or the kind of violation of the final state *)
+  register "relay_guard_run" (function [ug; tm; cs; ss; ls] ->
+      let cs = chunks_of cs and ss = chunks_of ss in
+      let labels = List.map c13_label (split_on ' ' ls) in
+      (match rg_run (c13_ug ug) (bool_of tm) labels (init cs ss) with
+       | None -> "none"
+       | Some s -> if rg_stranded s then "stranded" else if rg_bad (List.concat cs) (List.concat ss) s then "conservation" else "ok")
+    | _ -> "?args")
